@@ -43,6 +43,11 @@ CEN = Real(-2000, 2000)
 def tilt_sampler(rng):
     import numpy as np
     tx, ty, tz = [rng.uniform(-0.3, 0.3) for _ in range(3)]
+    r = rng.random()
+    if r < 0.15:          # a nearly aligned detector: tilts of micro- to milliradians (and exact zeros)
+        tx, ty, tz = [rng.choice([0.0, 0.0, 1.0, -1.0]) * rng.choice([1e-7, 1e-5, 1e-4, 3e-4, 6e-4, 9e-4, 2e-3]) for _ in range(3)]
+    elif r < 0.2:
+        tx, ty, tz = 0.0, 0.0, 0.0
     return mm(Rx(tx), mm(Ry(ty), Rz(tz)))
 
 
